@@ -75,15 +75,62 @@ def bits_ok(b, unused):
                 Implies_(unused != 0, And_(blen(b) >= 1, eq(at(b, blen(b) - 1) % sym.pow2(unused), 0))))
 
 
+# ---- base-128 sub-identifiers (X.690 8.19.2) -------------------------------------------------------------------------
+# q128(n, k) = n // 128**k.  Symbolically an uninterpreted function whose recurrence is supplied as ground instances where
+# it is used (contracts/der.py q128_facts); the axioms below define the digit count and the octets of the sub-identifier
+# from it.  `subid_len_unique` is the one mathematical fact taken as given: the number of base-128 digits is determined
+# by  n // 128^L == 0  and  (L == 1 or n // 128^(L-1) > 0)   (monotonicity of k -> n // 128^k; tested against CPython).
+Q128 = z3.Function("q128", sym.I, sym.I, sym.I)
+SUBID_LEN = z3.Function("subid_len", sym.I, sym.I)
+SUBID = z3.Function("subid", sym.I, sym.Bytes)
+
+
+def q128(n, k):
+    if not _anysym(n, k):
+        return n // (128 ** k) if k >= 0 else n
+    return SInt(Q128(T(n), T(k)))
+
+
+def subid_len(n):
+    if not _anysym(n):
+        return max(1, (n.bit_length() + 6) // 7) if n > 0 else 1
+    return SInt(SUBID_LEN(T(n)))
+
+
 def subid(n):
-    """base-128 big-endian sub-identifier, continuation bit on all but the last octet (X.690 8.19.2)"""
-    assert n >= 0
+    """base-128 big-endian sub-identifier, continuation bit on all but the last octet (X.690 8.19.2); total: b"\0" for n < 0"""
+    if _anysym(n):
+        return SBytes(SUBID(T(n)))
+    if n < 0:
+        return b"\x00"
     out = [n & 0x7F]
     n >>= 7
     while n:
         out.insert(0, 0x80 | (n & 0x7F))
         n >>= 7
     return bytes(out)
+
+
+@axiom("subid_len_def", ["int"], lambda n: [subid_len(n)], domain=lambda n: n >= 0)
+def _(n):
+    L = subid_len(n)
+    return Implies_(n >= 0, And_(L >= 1, eq(q128(n, L), 0), Or_(eq(L, 1), q128(n, L - 1) > 0)))
+
+
+@axiom("subid_len_unique", ["int", "int"], lambda n, L: [[q128(n, L), subid_len(n)]], domain=lambda n, L: n >= 0 and 1 <= L)
+def _(n, L):
+    return Implies_(And_(n >= 0, L >= 1, eq(q128(n, L), 0), Or_(eq(L, 1), q128(n, L - 1) > 0)), eq(L, subid_len(n)))
+
+
+@axiom("subid_len_bytes", ["int"], lambda n: [subid(n)], domain=lambda n: n >= 0)
+def _(n):
+    return Implies_(n >= 0, eq(blen(subid(n)), subid_len(n)))
+
+
+@axiom("subid_at", ["int", "int"], lambda n, i: [at(subid(n), i)], domain=lambda n, i: n >= 0 and 0 <= i < subid_len(n))
+def _(n, i):
+    L = subid_len(n)
+    return Implies_(And_(n >= 0, 0 <= i, i < L), eq(at(subid(n), i), q128(n, L - 1 - i) % 128 + If_(i < L - 1, 128, 0)))
 
 
 def enc_oid(arcs):
